@@ -105,6 +105,14 @@ theorem toInt_mod (a n : I128) (h : n.toInt ≠ 0) : (GenNum.Int128_Mod a n).toI
   unfold GenNum.Int128_Mod; rw [hd]; simp only
   exact hr
 
+theorem divMod_fst (a n : I128) : (GenNum.Int128_DivMod a n).1 = GenNum.Int128_Div a n := by
+  unfold GenNum.Int128_DivMod GenNum.Int128_Div
+  rw [(C01.idiv_eq_fst_divMod a n).1]
+  cases I128.divMod a n <;> rfl
+theorem divMod_snd (a n : I128) : (GenNum.Int128_DivMod a n).2 = GenNum.Int128_Mod a n := by
+  unfold GenNum.Int128_DivMod GenNum.Int128_Mod
+  rw [(C01.idiv_eq_fst_divMod a n).2.1]
+  cases I128.divMod a n <;> rfl
 theorem data_eq (a b : Gen.F128_Int) : a = b ↔ a.data.toInt = b.data.toInt := by
   cases a; cases b
   simp only [Gen.F128_Int.mk.injEq]
@@ -148,14 +156,14 @@ macro_rules
   | `(tactic| fq_tie [$ls,*] [$ms,*]) => `(tactic|
       (simp only [$ls,*, $ms,*, GenTie128.toInt_add, GenTie128.toInt_sub, GenTie128.toInt_mul, GenTie128.toInt_neg,
         GenTie128.toInt_abs, GenTie128.toInt_from64, GenTie128.toInt_cmp, GenTie128.toInt_sign, GenTie128.gt_eq,
-        GenTie128.ge_eq, GenTie128.lt_eq, GenTie128.le_eq, GenTie128.eq_eq, GenTie128.isZero_eq, GenTie128.toInt_div,
+        GenTie128.ge_eq, GenTie128.lt_eq, GenTie128.le_eq, GenTie128.eq_eq, GenTie128.isZero_eq, GenTie128.divMod_fst, GenTie128.divMod_snd, GenTie128.toInt_div,
         GenTie128.toInt_mod, GenTie128.data_eq, GenTie128.zero_toInt, GenTie128.data_ite, GenTie128.toInt_ite, ne_eq, BitVec.reduceToInt,
         Int.reduceEq, Int.reduceNe,
         not_false_eq_true, not_true_eq_false, Bool.not_eq_true', decide_eq_true_eq, decide_eq_false_iff_not]) <;>
       (try simp only [gen_local, gen_const, $ls,*, $ms,*, GenTie128.toInt_add, GenTie128.toInt_sub, GenTie128.toInt_mul,
         GenTie128.toInt_neg, GenTie128.toInt_abs, GenTie128.toInt_from64, GenTie128.toInt_cmp, GenTie128.toInt_sign,
         GenTie128.gt_eq, GenTie128.ge_eq, GenTie128.lt_eq, GenTie128.le_eq, GenTie128.eq_eq, GenTie128.isZero_eq,
-        GenTie128.toInt_div, GenTie128.toInt_mod, GenTie128.data_eq, GenTie128.zero_toInt, GenTie128.data_ite,
+        GenTie128.divMod_fst, GenTie128.divMod_snd, GenTie128.toInt_div, GenTie128.toInt_mod, GenTie128.data_eq, GenTie128.zero_toInt, GenTie128.data_ite,
         GenTie128.toInt_ite, ne_eq, BitVec.reduceToInt, Int.reduceEq, Int.reduceNe, not_false_eq_true,
         not_true_eq_false]) <;>
       (try simp only [$ms,*]) <;>
